@@ -23,6 +23,21 @@ def sh(cmd, **kw):
     return p.returncode, p.stdout + p.stderr
 
 
+BUILDER = ["C01", "C02", "C03", "C04", "C05", "C06", "C07", "C08", "C09", "C11", "C14", "C20"]
+# which checks read which part of the package (for --related)
+RELATED = [
+    ("gscrib/gcode_builder.py", BUILDER), ("gscrib/gcode_core.py", BUILDER + ["C10", "C13"]), ("gscrib/gcode_state.py", BUILDER),
+    ("gscrib/formatters/", BUILDER), ("gscrib/geometry/bounds.py", BUILDER), ("gscrib/geometry/point.py", BUILDER + ["C10", "C13", "C19"]),
+    ("gscrib/params.py", BUILDER + ["C18"]), ("gscrib/enums/", BUILDER + ["C10"]), ("gscrib/codes/", BUILDER),
+    ("gscrib/geometry/tracer.py", ["C01", "C09", "C10", "C11", "C20"]),
+    ("gscrib/geometry/transform", ["C01", "C04", "C13"]),
+    ("gscrib/hooks/", ["C20"]),
+    ("gscrib/writers/printrun_writer.py", ["C16", "C18", "C14"]), ("gscrib/writers/", ["C14", "C16"]),
+    ("gscrib/printrun/", ["C15", "C16", "C17", "C18"]),
+    ("gscrib/heightmaps/", ["C19"]),
+]
+
+
 def one(td: pathlib.Path):
     tmp = pathlib.Path(tempfile.mkdtemp(prefix="gsv-twr-", dir="/var/tmp"))
     try:
@@ -32,6 +47,15 @@ def one(td: pathlib.Path):
             return td.name, "patch does not apply to HEAD", {}
         res = {}
         props = [c["property_id"] for c in json.loads((VERIF / "MANIFEST.json").read_text())["checks"]]
+        if "--related" in sys.argv:
+            # only the checks that analyse a file the patch touches (plus the twin's own property)
+            touched = [l.split()[-1] for l in (td / "patch.diff").read_text().splitlines() if l.startswith("+++ b/")]
+            keep = {td.name[:3]}
+            for f in touched:
+                for pat, checks in RELATED:
+                    if pat in f:
+                        keep |= set(checks)
+            props = [p_ for p_ in props if p_ in keep]
         for pid in props:
             env = dict(os.environ, GSVERIF_EVIDENCE_DIR=str(tmp / f"ev-{pid}"), PYTHONPATH=str(VERIF), GSVERIF_JOBS=os.environ.get("GSVERIF_JOBS", "4"))
             rc, o = sh(f"timeout 1700 {PY} -m gsverif check {pid} --tier quick --repo {tmp}/wt", cwd=str(VERIF), env=env)
